@@ -30,9 +30,15 @@ ATOMS = {
     35: '"it\'s"', 36: '"("', 37: '")"', 38: '"5` ("', 39: '"[x] + (1"',
     40: "`o'clock`", 41: "`(`", 42: '`5"`', 43: "`a)b`", 44: "`it's (`",
     # runs of blanks / a tab inside operands (operand text is compared exactly), every quote kind and a regex
+    # numeric literals with many significant digits, very small / large magnitudes, exponent forms (WideNums);
+    # all in the spelling Python gives back (str(float(x)) == x), so "unchanged" means character for character
+    50: "122.4194155", 51: "1.1234567", 52: "0.000123456789", 53: "1234567890.125", 54: "3.141592653589793",
+    55: "1e-05", 56: "2.5e-08", 57: "1e+16", 58: "12345678901234567890",
     45: "'New  York'", 46: '"Area:   "', 47: "`a \t b`", 48: "/^a  b+/", 49: '"tab\there  "',
 }
 PLAIN_ATOMS = set(range(1, 27))
+WIDE_NUMS = set(range(50, 59))
+assert all(str(float(ATOMS[i])) == ATOMS[i] or str(int(ATOMS[i])) == ATOMS[i] for i in WIDE_NUMS)
 TRICKY = {"TrickySq": {30, 31, 32, 33, 34, 45}, "TrickyDq": {35, 36, 37, 38, 39, 46, 49},
           "TrickyBq": {40, 41, 42, 43, 44, 47}}
 FUNCS = {1: "length", 2: "tostring", 3: "upper", 4: "round", 5: "lookup", 6: "inlist", 7: "initcap"}
